@@ -8,8 +8,6 @@ use crate::default::transpose;
 use crate::module::{Module, ModuleType};
 use crate::QRCode;
 
-use super::hardcode;
-
 #[cfg(test)]
 pub fn test_score_line(l: &[Module]) -> u32 {
     line(l).1
@@ -159,8 +157,13 @@ fn dark_module_score(qr: &QRCode) -> u32 {
         .filter(|m| m.value() == Module::DARK)
         .count();
 
-    let percent = (dark_modules * 100) / (n * n);
-    u32::from(hardcode::PERCENT_SCORE[percent])
+    // Full 5% steps between the dark ratio and 50%, in exact integer arithmetic. Flooring the
+    // percentage first counted an exact 40% (or 20%) as one step less than an exact 60% (or 80%),
+    // and indexed out of bounds for an all-dark matrix.
+    let total = n * n;
+    let twice = 2 * dark_modules;
+    let deviation = if twice > total { twice - total } else { total - twice };
+    (deviation * 10 / total * 10) as u32
 }
 
 /// Computes the score for the matrix
